@@ -293,6 +293,26 @@ impl Run {
 
     pub fn observe(&self) -> Value {
         let w = &self.w;
+        // what the two list queries report for every proposal (status, total), keyed by id
+        let mut listed: std::collections::BTreeMap<u64, (String, i64)> = Default::default();
+        let mut rlisted: std::collections::BTreeMap<u64, (String, i64)> = Default::default();
+        let st_name = |s: &Status| -> &'static str { match s { Status::Open => "open", Status::Passed => "passed", Status::Rejected => "rejected", Status::Executed => "executed", Status::Pending => "pending" } };
+        let mut cur: Option<u64> = None;
+        loop {
+            let r: Option<cw3::ProposalListResponse> = self.q(&self.ms, &cw3_fixed_multisig::msg::QueryMsg::ListProposals { start_after: cur, limit: Some(30) });
+            let Some(r) = r else { break };
+            if r.proposals.is_empty() { break; }
+            cur = Some(r.proposals.last().unwrap().id);
+            for p in r.proposals { listed.insert(p.id, (st_name(&p.status).to_string(), thr_resp_to_model(&p.threshold)["total"].as_i64().unwrap_or(-1))); }
+        }
+        let mut cur: Option<u64> = None;
+        loop {
+            let r: Option<cw3::ProposalListResponse> = self.q(&self.ms, &cw3_fixed_multisig::msg::QueryMsg::ReverseProposals { start_before: cur, limit: Some(30) });
+            let Some(r) = r else { break };
+            if r.proposals.is_empty() { break; }
+            cur = Some(r.proposals.last().unwrap().id);
+            for p in r.proposals { rlisted.insert(p.id, (st_name(&p.status).to_string(), thr_resp_to_model(&p.threshold)["total"].as_i64().unwrap_or(-1))); }
+        }
         let mut props = vec![];
         let mut id = 1u64;
         loop {
@@ -301,7 +321,7 @@ impl Run {
                 // either no such proposal, or the query itself fails: distinguish through ListVotes
                 let lv: Option<VoteListResponse> = self.q(&self.ms, &cw3_fixed_multisig::msg::QueryMsg::ListVotes { proposal_id: id, start_after: None, limit: Some(30) });
                 if lv.map(|l| !l.votes.is_empty()).unwrap_or(false) {
-                    props.push(json!({"id":id,"status":"error","expires":{"k":"never","v":0},"thr":{"kind":"count","weight":0,"p":0,"q":0,"total":0},
+                    props.push(json!({"id":id,"status":"error","lstatus":"error","rstatus":"error","ltotal":0,"rtotal":0,"expires":{"k":"never","v":0},"thr":{"kind":"count","weight":0,"p":0,"q":0,"total":0},
                         "proposer":"?","msgs":[],"title":"?","dep":{"kind":"none","amt":0,"refund":false},"votes":[],"snap":{"a1":-1,"a2":-1,"a3":-1},"start":0}));
                     id += 1;
                     continue;
@@ -345,7 +365,9 @@ impl Run {
                 };
                 snap.insert(u.to_string(), json!(wgt));
             }
-            props.push(json!({"id":p.id,"status":status,"expires":exp_to_model(&p.expires),"thr":thr_resp_to_model(&p.threshold),
+            let (ls, lt) = listed.get(&p.id).cloned().unwrap_or(("missing".into(), -1));
+            let (rs, rt) = rlisted.get(&p.id).cloned().unwrap_or(("missing".into(), -1));
+            props.push(json!({"id":p.id,"status":status,"lstatus":ls,"rstatus":rs,"ltotal":lt,"rtotal":rt,"expires":exp_to_model(&p.expires),"thr":thr_resp_to_model(&p.threshold),
                 "proposer": w.name_of(p.proposer.as_str()),"msgs":msgs,"title":p.title,"dep":depv,"votes":votes,"snap":Value::Object(snap),"start":start}));
             id += 1;
             if id > 40 {
@@ -537,8 +559,12 @@ pub fn rand_cfg(rng: &mut Rng) -> Value {
         total = 1;
     }
     if rng.chance(1, 10) {
-        let d = voters[rng.below(voters.len() as u64) as usize].clone();
-        voters.push(d);
+        // a repeated address, with the same or another weight
+        let mut d = voters[rng.below(voters.len() as u64) as usize].clone();
+        if rng.chance(2, 3) {
+            d["w"] = json!(d["w"].as_u64().unwrap() + rng.range(1, 4));
+        }
+        if rng.chance(1, 2) { voters.push(d); } else { voters.insert(0, d); }
     }
     let period = if rng.chance(1, 2) { json!({"k":"h","v":rng.range(1, 4)}) } else { json!({"k":"t","v":10 * rng.range(1, 3)}) };
     let executor = if !flex { "none".to_string() } else { rng.pick(&["none", "none", "member", "a1", "a2"]).to_string() };
